@@ -15,6 +15,7 @@ import concurrent.futures as cf
 import faulthandler
 import hashlib
 import json
+from . import bigjson
 import multiprocessing
 import os
 import random
@@ -34,7 +35,7 @@ def rng_for(master, check, i):
 
 
 def jdump(x):
-    return json.dumps(x, sort_keys=True, default=str)
+    return bigjson.dumps(x, sort_keys=True, default=str)
 
 
 def sha(x):
@@ -226,7 +227,7 @@ def write_replay(name, prop, master, i, case, v, digest):
     os.makedirs(d, exist_ok=True)
     path = os.path.join(d, "%s-%d-%d.json" % (prop, master, i))
     with open(path, "w") as f:
-        json.dump({"check": name, "property": prop, "seed": master, "run": i, "case": case,
+        bigjson.dump({"check": name, "property": prop, "seed": master, "run": i, "case": case,
                    "expect": {"property": v["property"], "oracle": v["oracle"], "site": v["site"]},
                    "detail": v.get("detail", ""), "digest": digest}, f, indent=1, sort_keys=True)
     return path
@@ -234,7 +235,7 @@ def write_replay(name, prop, master, i, case, v, digest):
 
 def replay(path):
     with open(path) as f:
-        rp = json.load(f)
+        rp = bigjson.load(f)
     res = _run_one(rp["check"], rp["case"])
     if res.get("harness_error"):
         print("HARNESS-ERROR during replay:", res["harness_error"])
@@ -275,7 +276,7 @@ def run_check(name, tier):
             continue
         wpath = os.path.join(VERIF, f["witness"])
         with open(wpath) as fh:
-            rp = json.load(fh)
+            rp = bigjson.load(fh)
         res = _run_one(rp["check"], rp["case"])
         if res.get("harness_error"):
             print("HARNESS-ERROR replaying finding %s: %s" % (f["id"], res["harness_error"]))
@@ -399,7 +400,7 @@ def run_check(name, tier):
     if not os.environ.get("VERIF_NO_EVIDENCE") and not foreign_tree:
         os.makedirs(os.path.join(VERIF, "evidence"), exist_ok=True)
         with open(os.path.join(VERIF, "evidence", prop + ".json"), "w") as f:
-            json.dump(ev, f, indent=1, sort_keys=True, default=str)
+            bigjson.dump(ev, f, indent=1, sort_keys=True, default=str)
     print("done: runs=%d nontrivial=%d violations=%d known=%s wall=%.1fs digest=%s" % (
         nres, len(nontrivial), n_viol, known_seen, wall, ev["coverage"]["batch_digest"]))
     return exit_code
